@@ -488,3 +488,29 @@ def c14(ctx):
                   "demands offered = legal and free (full check of the same robot), under rayon pools; non-trivial = cases with a "
                   "colliding candidate",
                   assumptions=["the full check used as reference is the library's own collides(), as the statement says"])
+
+
+# ----------------------------------------------------------------------------- C11
+@check("C11")
+def c11(ctx):
+    opwv(ctx, ["record", "shape", ctx.path("shape.trace")])
+    viols, done = trace_validate(ctx, "Trace_Shape", ctx.path("shape.trace"))
+    ev = read_ndjson(ctx.path("shape.trace"))
+    for v in viols:
+        e = ev[v["l"] - 1]
+        for clause in v["clause"]:
+            ctx.violation("%s:%s:%s" % (clause, e.get("ctor"), e.get("entry")), "event #%d %s" % (v["l"], json.dumps(e)[:900]), e)
+    ctx.evaluations += len(ev)
+    mixed = 0
+    for e in ev:
+        if e.get("collides") and any(e["collides"]) and not all(e["collides"]):
+            mixed += 1
+            ctx.nontrivial.add((e["case"], e["rep"], e["entry"]))
+    ctx.extra["events_with_both_colliding_and_free_answers"] = mixed
+    ctx.sample(next(e for e in ev if e.get("collides") and any(e["collides"])))
+    return finish(ctx, rule="robots with shape (both constructors, first/all collision modes, touch-only and positive safety distances, "
+                  "2..5 random environment boxes, random base/tool transforms) x random reachable poses x 4 inverse entry points: the "
+                  "answers of the underlying stack (public field), the collides() verdict of each and the wrapper's answers are one "
+                  "event; TLC demands outer = FilterFree(inner, collides); forward / link poses against the independent stack model; "
+                  "non-trivial = events whose underlying answers are partly colliding",
+                  assumptions=["the collides() verdict itself is C10's subject"])
